@@ -286,7 +286,8 @@ def gen_cases(rng, tier):
                 yt, yp, yb, ytr = _data(rng, metric, n, k, o.get("sp", 1))
                 c = {"kind": "class", "metric": metric, "cls": cls, "opts": o,
                      "needs": extra or "none", "proto": "call", "mo": "uniform_average",
-                     "hw": None, "univariate": univ, "container": "numpy", "y_true": yt,
+                     "hw": None, "univariate": univ,
+                     "container": "pandas" if rng.random() < 0.3 else "numpy", "y_true": yt,
                      "y_pred": yp}
                 if yb is not None:
                     c["y_bench"] = yb
